@@ -12,19 +12,31 @@ Proof.
   - apply IH in H. simpl. lia.
 Qed.
 
+Lemma find_footer_bit_bounds : forall f us i m,
+  find_footer_bit f us i = Some m -> i < m /\ m <= i + length us.
+Proof.
+  induction us as [|u r IH]; intros i m H; simpl in H; [discriminate|].
+  destruct (Nat.testbit (u_name u) f).
+  - inversion H; subst. simpl. lia.
+  - apply IH in H. simpl. lia.
+Qed.
+
 Lemma flat_leaf_sound : forall l, leaf_okb l = true -> leaf_sound flat_leaf l.
 Proof.
-  intros [n|k|h f] Hok us m H; simpl in *.
+  intros [n|k|h f|h f] Hok us m H; simpl in *.
   - destruct us as [|u r]; [discriminate|]. destruct (u_name u =? n); inversion H; subst. simpl. lia.
   - destruct k as [|k]; [discriminate|]. destruct (length us <? S k) eqn:E; inversion H; subst.
     apply Nat.ltb_ge in E. lia.
   - destruct us as [|u r]; [discriminate|]. destruct (u_name u =? h); [|discriminate].
     apply find_footer_bounds in H. simpl in *. lia.
+  - destruct us as [|u r]; [discriminate|]. destruct (Nat.testbit (u_name u) h); [|discriminate].
+    destruct f as [f|]; [|inversion H; subst; simpl; lia].
+    apply find_footer_bit_bounds in H. simpl in *. lia.
 Qed.
 
 Lemma edi_leaf_sound : forall l, leaf_sound edi_leaf l.
 Proof.
-  intros [n|k|h f] us m H; simpl in *; try discriminate.
+  intros [n|k|h f|h f] us m H; simpl in *; try discriminate.
   destruct us as [|u r]; [discriminate|]. destruct (u_name u =? n); inversion H; subst. simpl. lia.
 Qed.
 
